@@ -250,16 +250,16 @@ PROPS["C05"] = dict(select=_c05, witnesses=["h_unit::unit_witness"], timeout=900
 
 
 S = "h_search::"
-NODE = [S + x for x in ["c09_node_k1", "c09_node_k2", "c09_node_k3", "c09_node_k4", "c09_node_k5", "c09_node_k4_killer3", "c09_node_k4_killer1"]]
+# Heavy harnesses (real hashbrown insert inside): 12-20 min and up to 15 GB each.  Instances that
+# exist in h_search.rs but are NOT run because they do not finish: c09_node_k5 (> 30 min), every
+# root instance with a pre-filled table (c06_entry_*cached*, c06_entry_k4_rep_other: a look-up on a
+# non-empty hashbrown table is out of CBMC's reach), c08_driver_*_cached*, c18_driver_pv_k3.
+NODE = [S + x for x in ["c09_node_k1", "c09_node_k2", "c09_node_k3", "c09_node_k4", "c09_node_k4_killer3", "c09_node_k4_killer1"]]
 DEPTH1 = [S + x for x in ["c09_depth1_k1", "c09_depth1_k2", "c09_depth1_k3", "c09_depth1_k5"]]
 QUIES = [S + x for x in ["c09_quiescence_1_1", "c09_quiescence_2_2_all", "c09_quiescence_2_2_mixed", "c09_quiescence_3_2_all", "c09_quiescence_3_2_mixed", "c09_quiescence_3_3_none"]]
 # cheap root / node harnesses (they return before the table is written)
 ENTRY_CHEAP = [S + x for x in ["c06_entry_k1", "c06_entry_k1_rep0", "c08_entry_killers_k2", "c08_entry_killers_k4", "c07_node_stopped", "c06_entry_k1_rep0_hit"]]
-ENTRY = [S + x for x in ["c06_entry_k0", "c06_entry_k0_cached", "c06_entry_k1_cached", "c06_entry_k2", "c06_entry_k2_rep",
-                         "c06_entry_k3_cached1", "c06_entry_k4", "c06_entry_k4_cached3", "c06_entry_k4_rep", "c06_entry_k4_rep_cached1",
-                         "c06_entry_k4_rep_other", "c06_entry_k5"]]
-# (driver instances with a pre-filled table -- c08_driver_*_cached* -- exist in h_search.rs but are not
-# run: a hashbrown look-up on a non-empty table inside the driver's loops does not finish in CBMC)
+ENTRY = [S + x for x in ["c06_entry_k0", "c06_entry_k2", "c06_entry_k2_rep", "c06_entry_k4", "c06_entry_k4_rep"]]
 DRIVER = [S + x for x in ["c08_driver_limit1_fresh", "c08_driver_limit2_fresh", "c08_driver_limit3_fresh",
                           "c08_driver_unlimited_fresh", "c06_driver_no_moves", "c06_driver_single_reply"]]
 NOMOVES = [S + x for x in ["c10_no_moves_node", "c10_depth1_no_moves", "c10_no_moves_quiescence"]]
@@ -280,7 +280,7 @@ SYS = {
 }
 
 
-HEAVY = set(NODE + ENTRY + [S + "c18_driver_pv_k3", S + "c06_entry_k1_rep0"])
+HEAVY = set(NODE + ENTRY + [S + "c06_entry_k1_rep0"])
 
 
 def _search_prop(pid, harnesses, functions, quick_heavy):
@@ -292,16 +292,16 @@ def _search_prop(pid, harnesses, functions, quick_heavy):
         # quick: the cheap harnesses only -- the heavy ones need 12-20 min each on an idle machine
         return [h for h in hs if h not in HEAVY]
     PROPS[pid] = dict(select=select, witnesses=[S + "c09_depth1_witness", S + "c08_driver_witness", S + "c09_quiescence_witness"],
-                      thorough_witnesses=S_WITNESS, timeout=3000, jobs=6, tag="[%s]" % pid,
+                      thorough_witnesses=[S + "c09_depth1_witness", S + "c08_driver_witness", S + "c09_quiescence_witness", S + "c06_entry_witness"], timeout=3300, jobs=4, tag="[%s]" % pid,
                       stubbed_prefixes=[S], sys_replays=SYS, functions=functions, bounds=SEARCH_BOUNDS, assumptions=SEARCH_ASSUME, native_replay=True)
 
 
-_search_prop("C06", ENTRY_CHEAP[:1] + ENTRY_CHEAP[5:] + [S + "c06_entry_k1_rep0"] + ENTRY + DRIVER + NODE[:4], ["search::get_best_move_entry", "search::get_best_move_until_stop", "search::get_best_move_score (table entry it leaves)"], ["c06_entry_k4", "c06_entry_k1"])
-_search_prop("C07", [ENTRY_CHEAP[0]] + ENTRY_CHEAP[2:5] + ENTRY + DRIVER, ["search::get_best_move_entry (`?` propagation)", "search::get_best_move_until_stop"], ["c06_entry_k4"])
-_search_prop("C08", ENTRY_CHEAP[2:4] + DRIVER + ENTRY[4:8], ["search::get_best_move_until_stop", "search::get_best_move_entry (killer table it allocates)"], ["c06_entry_k2", "c08_driver_limit2_cached"])
-_search_prop("C09", NODE + DEPTH1 + QUIES + ENTRY[4:], ["search::get_best_move_score", "search::get_best_move_score_depth_1", "search::quiescence_search", "search::get_best_move_entry", "search::move_score (through the sort)", "Move::{is_tactical_move,index_history}"], ["c09_node_k4", "c06_entry_k4"])
-_search_prop("C10", NOMOVES + DRIVER + ENTRY_CHEAP[2:4] + ENTRY[:2], ["search::get_best_move_score (no-move rule)", "search::get_best_move_score_depth_1 (no-move rule)", "search::quiescence_search (no-move rule)", "search::get_best_move_until_stop (stop on mate score)", "search::get_best_move_entry (root without moves)"], ["c06_entry_k0"])
-_search_prop("C18", DRIVER + NODE[:4], ["search::get_best_move_until_stop (line reconstruction)", "search::get_best_move_score (the cached move it leaves is one of the node's moves)"], ["c08_driver_limit2_cached", "c09_node_k2"])
+_search_prop("C06", [ENTRY_CHEAP[0], ENTRY_CHEAP[5], ENTRY_CHEAP[1]] + ENTRY + DRIVER + NODE[1:2], ["search::get_best_move_entry", "search::get_best_move_until_stop", "search::get_best_move_score (table entry it leaves)"], [])
+_search_prop("C07", [ENTRY_CHEAP[0]] + ENTRY_CHEAP[2:5] + ENTRY[1:2] + ENTRY[3:4] + DRIVER, ["search::get_best_move_entry (`?` propagation)", "search::get_best_move_until_stop", "search::get_best_move_score (stop poll at node entry)"], [])
+_search_prop("C08", ENTRY_CHEAP[2:4] + DRIVER + ENTRY[1:2], ["search::get_best_move_until_stop", "search::get_best_move_entry (killer table it allocates)"], [])
+_search_prop("C09", NODE[1:5] + DEPTH1 + QUIES + ENTRY[3:4], ["search::get_best_move_score", "search::get_best_move_score_depth_1", "search::quiescence_search", "search::get_best_move_entry", "search::move_score (through the sort)", "Move::{is_tactical_move,index_history}"], [])
+_search_prop("C10", NOMOVES + DRIVER + ENTRY_CHEAP[2:4] + ENTRY[:1], ["search::get_best_move_score (no-move rule)", "search::get_best_move_score_depth_1 (no-move rule)", "search::quiescence_search (no-move rule)", "search::get_best_move_until_stop (stop on mate score)", "search::get_best_move_entry (root without moves)"], [])
+_search_prop("C18", DRIVER + NODE[1:2], ["search::get_best_move_until_stop (line reconstruction)", "search::get_best_move_score (the cached move it leaves is one of the node's moves)"], [])
 
 
 def _c13(tier, seed):
